@@ -287,7 +287,7 @@ def native_wf():
     import numpy as np, jax
     from jinns.data._DataGenerators import CubicMeshPDEStatio, CubicMeshPDENonStatio
     msgs = []
-    for (mn, mx) in [((-1.0, 0.5), (2.0, 1.5)), ((0.0, 0.0), (1.0, 1.0)), ((-3.0, -7.0), (-1.0, 4.0))]:
+    for (mn, mx) in [((-1.0, 0.5), (2.0, 1.5)), ((0.0, 0.0), (1.0, 1.0)), ((-3.0, -7.0), (-1.0, 4.0)), ((-4.0, 2.0), (-1.0, 3.0)), ((0.0, 10.0), (1.0, 12.0))]:
         g = CubicMeshPDENonStatio(key=jax.random.PRNGKey(2), n=12, nb=8, nt=6, omega_batch_size=4, omega_border_batch_size=2, temporal_batch_size=3,
                                   dim=2, min_pts=mn, max_pts=mx, tmin=-1.0, tmax=2.0)
         for call in range(5):
@@ -296,6 +296,10 @@ def native_wf():
             for (cc, ff, bound) in want:
                 if not np.allclose(ob[:, cc, ff], bound):
                     msgs.append(f"box {mn}-{mx}: facet {ff} has coordinate {cc} = {ob[:, cc, ff].tolist()}, expected {bound}")
+            free = [(1, 0), (1, 1), (0, 2), (0, 3)]        # (free coordinate, facet)
+            for (cc, ff) in free:
+                if ob[:, cc, ff].min() < mn[cc] or ob[:, cc, ff].max() > mx[cc]:
+                    msgs.append(f"box {mn}-{mx}: facet {ff}: free coordinate {cc} ranges over [{ob[:, cc, ff].min()}, {ob[:, cc, ff].max()}], outside [{mn[cc]}, {mx[cc]}]")
             om = np.asarray(g.omega)
             if om[:, 0].min() < mn[0] or om[:, 0].max() > mx[0] or om[:, 1].min() < mn[1] or om[:, 1].max() > mx[1]:
                 msgs.append(f"box {mn}-{mx}: interior points outside the box")
